@@ -4068,7 +4068,11 @@ fn eval_built_in_call(
                 }
             };
 
-            let v = check_snippet(snippet, PathBuf::from(path_s), env);
+            let v = check_snippet(
+                snippet,
+                crate::parser::vfs::to_abs_path(&PathBuf::from(path_s)),
+                env,
+            );
             if expr_value_is_used {
                 env.push_value(v);
             }
